@@ -203,3 +203,11 @@ var marks = map[string]int{}
 // The engine's stubs of environment functions (reverse proxy) call Mark themselves.
 func Mark(label string)       { marks[label]++ }
 func Marked(label string) int { return marks[label] }
+
+// NondetByteRange returns a nondeterministic byte in [lo, hi] (no branching in the engine).
+func NondetByteRange(name string, lo, hi byte) byte {
+	b := NondetByte(name)
+	Assume(lo <= b)
+	Assume(b <= hi)
+	return b
+}
